@@ -1,5 +1,6 @@
 import Ufw.Props.C14
 import Ufw.Tie.Varint
+import Ufw.Tie.VarintLoops.Common
 import Ufw.Tie.VarintLoops.Done
 import Ufw.Tie.VarintLoops.Length
 import Ufw.Tie.VarintLoops.Decode
@@ -18,17 +19,19 @@ import Ufw.Tie.VarintLoops.Encode
 #print axioms Ufw.Props.C14.buf_bounds
 #print axioms Ufw.Tie.Varint.const_model
 #print axioms Ufw.Tie.Varint.const_leb128
-#print axioms Ufw.Tie.VarintLoops.done_all
-#print axioms Ufw.Tie.VarintLoops.gen_varint_done
-#print axioms Ufw.Tie.VarintLoops.done_ne_zero
-#print axioms Ufw.Tie.VarintLoops.shr7
-#print axioms Ufw.Tie.VarintLoops.sx0'
-#print axioms Ufw.Tie.VarintLoops.length_loop
-#print axioms Ufw.Tie.VarintLoops.gen_varint_u64_length
-#print axioms Ufw.Tie.VarintLoops.data_bits
 #print axioms Ufw.Tie.VarintLoops.seven
 #print axioms Ufw.Tie.VarintLoops.one64
 #print axioms Ufw.Tie.VarintLoops.zero64
+#print axioms Ufw.Tie.VarintLoops.sone64
+#print axioms Ufw.Tie.VarintLoops.sx0'
+#print axioms Ufw.Tie.VarintLoops.zero_toInt
+#print axioms Ufw.Tie.VarintLoops.shr7
+#print axioms Ufw.Tie.VarintLoops.done_all
+#print axioms Ufw.Tie.VarintLoops.gen_varint_done
+#print axioms Ufw.Tie.VarintLoops.done_ne_zero
+#print axioms Ufw.Tie.VarintLoops.length_loop
+#print axioms Ufw.Tie.VarintLoops.gen_varint_u64_length
+#print axioms Ufw.Tie.VarintLoops.data_bits
 #print axioms Ufw.Tie.VarintLoops.acc_step
 #print axioms Ufw.Tie.VarintLoops.decode_loop
 #print axioms Ufw.Tie.VarintLoops.gen_varint_decode
@@ -36,8 +39,6 @@ import Ufw.Tie.VarintLoops.Encode
 #print axioms Ufw.Tie.VarintLoops.agrees_cons
 #print axioms Ufw.Tie.VarintLoops.data_bits'
 #print axioms Ufw.Tie.VarintLoops.acc_step'
-#print axioms Ufw.Tie.VarintLoops.zero_toInt
-#print axioms Ufw.Tie.VarintLoops.sone64
 #print axioms Ufw.Tie.VarintLoops.neg_enodata
 #print axioms Ufw.Tie.VarintLoops.one_nonneg
 #print axioms Ufw.Tie.VarintLoops.source_loop
